@@ -14,7 +14,11 @@ integer clock) and the Lean model `Rbacx.Cache.step`:
   `cache._lock._is_owned()` on every access and logging the order in which calls took the lock; the sequential
   model replayed in that order must reproduce every result; plus black-box tiny histories checked for a
   linearisation by brute force (Wing–Gong over all orders respecting program and real-time order);
-* per-run obligation `Rbacx/Run/C15_locked.lean` over the lock-discipline facts extracted from the source."""
+* per-run obligation `Rbacx/Run/C15_locked.lean` over the lock-discipline facts extracted from the source;
+* tie by regeneration: the methods get/set/delete/clear/_purge_expired_unlocked are translated from the current source text into
+  state-passing Lean functions (harness/pytolean_methods.py, plugin extractors/src_translation_cache.py), the per-run obligation
+  `Rbacx/Run/C15_translated.lean` proves them equal to `Rbacx.Cache.step`, and the translation is evaluated against the real cache
+  (`translated_vs_python`, `Rbacx/Run/SrcEvalCache.lean`)."""
 from __future__ import annotations
 
 import itertools
@@ -439,6 +443,37 @@ def gen_sequence(r: random.Random, big: bool) -> tuple[int, list]:
     return maxsize, ops
 
 
+def gen_prefix_sequence(r: random.Random) -> tuple[int, list]:
+    """a dict that is filled beyond the purge prefix first (128 in the source: 128–150 entries, capacity above that), with deadlines on
+    both sides of the prefix boundary, then short random traffic while the clock passes those deadlines: a reached deadline beyond the
+    prefix survives a `set`, a `get` there removes it lazily, and a hit moves entries across the boundary"""
+    n0 = r.choice([131, 150, 170, 200])
+    maxsize = n0 + r.choice([-1, 0, 1, 5, 60])
+    nkeys = n0 + 12
+    keys = [f"k{i}" for i in range(nkeys)]
+    now, ops = 0, []
+    for i in range(n0):
+        # long-lived entries fill most of the prefix (so the dict stays longer than it), short deadlines sit around and beyond its end
+        ttl = r.choice([None, None, 60, 60, 4] if i < 124 and r.random() < 0.95 else [None, 2, 4, 4, 7])
+        ops.append(["set", keys[i], i + 1, ttl, now, now])
+    for i in range(n0 + 1, n0 + 1 + r.choice([30, 60])):
+        if r.random() < 0.4:
+            now += r.choice([1, 1, 2, 3])
+        x = r.random()
+        k = r.choice(keys) if r.random() < 0.5 else keys[r.choice([0, 1, 126, 127, 128, 129, n0 - 1, n0, nkeys - 1])]
+        if x < 0.45:
+            delta = r.choice([1, 3]) if r.random() < 0.15 else 0
+            ops.append(["set", k, i, r.choice([None, 0, 1, 2, 5]), now, now + delta])
+            now += delta
+        elif x < 0.85:
+            ops.append(["get", k, now])
+        elif x < 0.99:
+            ops.append(["del", k])
+        else:
+            ops.append(["clear"])
+    return maxsize, ops
+
+
 def classify(run: lib.Run, maxsize: int, ops: list, obs: list) -> bool:
     """outcome histogram of one sequence; returns whether it is non-trivial (a hit and a capacity/expiry loss)"""
     deadline: dict = {}
@@ -524,8 +559,10 @@ def run_random(run: lib.Run, prefix, scale: int = 1) -> None:
     quick = run.tier == "quick"
     small = [gen_sequence(r, False) for _ in range((1500 if quick else 6000) * scale)]
     big = [gen_sequence(r, True) for _ in range((30 if quick else 120) * scale)]
+    beyond = [gen_prefix_sequence(r) for _ in range((6 if quick else 40) * scale)]
     run_sequences(run, prefix, small, "random-small")
     run_sequences(run, prefix, big, "random-big")
+    run_sequences(run, prefix, beyond, "random-beyond-purge-prefix")
 
 
 def run_corpus(run: lib.Run, prefix) -> None:
@@ -831,6 +868,165 @@ def run_concurrent(run: lib.Run, prefix, scale: int = 1) -> None:
         sys.setswitchinterval(old)
 
 
+# ----------------------------------------------------------------------------- the translated methods vs the real cache
+
+
+class SiteTime:
+    """stands in for the `time` module inside rbacx.core.cache and notes WHERE each reading was taken: (source line of the call site,
+    value) — the translated methods take one clock parameter per call site"""
+
+    def __init__(self, clock: Clock):
+        self._c = clock
+        self.reads: list = []
+
+    def monotonic(self):
+        v = self._c.now
+        self.reads.append((sys._getframe(1).f_lineno, v))
+        return v
+
+    def __getattr__(self, name):
+        import time as _t
+        return getattr(_t, name)
+
+
+_METHOD = {"get": "get", "set": "set", "del": "delete", "clear": "clear"}
+
+
+def _exact(x):
+    """a clock value / deadline as the exact integer it is (the injected clock is integral, so `now + float(ttl)` is)"""
+    if isinstance(x, float) and x == int(x):
+        return int(x)
+    return x
+
+
+def _entries(cache) -> list:
+    import dataclasses
+    return [[k, [_exact(getattr(e, f.name)) for f in dataclasses.fields(e)]] for k, e in OrderedDict.items(cache._data)]
+
+
+def drive_real(maxsize: int, ops: list, sites: dict) -> tuple[list, list, list]:
+    """the real cache on explicit ops from the empty dict → (calls for the evaluator, expected [out, entries] per call, complaints)"""
+    clock = Clock()
+    ft = SiteTime(clock)
+    calls, want, odd = [], [], []
+    with patched_time(ft):
+        cache = rcache.DefaultInMemoryCache(maxsize)
+        d = HookedOD()
+        d.clock = clock
+        cache._data = d
+        for op in ops:
+            ft.reads = []
+            out = apply_op(cache, clock, op)
+            m = _METHOD[op[0]]
+            args = {"get": op[1:2], "set": op[1:4], "del": op[1:2], "clear": []}[op[0]]
+            nows = []
+            by_line: dict = {}
+            for ln, v in ft.reads:
+                by_line.setdefault(ln, []).append(v)
+            known = {s["line"] for s in sites[m]}
+            for s_ in sites[m]:
+                vs = by_line.get(s_["line"], [])
+                if len(vs) > 1:
+                    odd.append(f"{m}: the call site at line {s_['line']} was read {len(vs)} times in one call")
+                nows.append(_exact(vs[0]) if vs else 0)
+            if set(by_line) - known:
+                odd.append(f"{m}: time.monotonic() was read at line(s) {sorted(set(by_line) - known)}, not a call site of the translation")
+            calls.append({"m": m, "nows": nows, "args": [proto.enc(a) for a in args]})
+            if out == "done":
+                res = ["ret", None]
+            elif isinstance(out, list):
+                res = ["ret", out[1]]
+            elif out == "KeyError":
+                res = ["raised", "KeyError"]
+            else:
+                res = ["raised", str(out).split(":", 1)[-1]]
+            want.append([res, _entries(cache)])
+    return calls, want, odd
+
+
+def short_paths(depth: int) -> list:
+    """every template path of exactly this depth over the full alphabet, keys up to renaming (as the op trees)"""
+    alpha = alphabet(True)
+    out: list = []
+
+    def rec(path, used, fuel):
+        for t in alpha:
+            j = t[1] if t[0] in ("get", "set", "del") else None
+            if j is not None and j > used:
+                continue
+            used2 = max(used, j + 1) if j is not None else used
+            if fuel > 1:
+                rec(path + [t], used2, fuel - 1)
+            else:
+                out.append(path + [t])
+    rec([], 0, depth)
+    return out
+
+
+def translated_vs_python(run: lib.Run, tr: dict, prefix) -> tuple[bool, str]:
+    """the translated methods (Generated.Src.cache_*, evaluated by `lake env lean --run Rbacx/Run/SrcEvalCache.lean`) against the real
+    `DefaultInMemoryCache` on the same call sequences: result, key order and entries (value, deadline) after every call; every call
+    site of `time.monotonic()` is handed the value the real call read there.  Validates the translator (harness/pytolean_methods.py) and
+    Model/PyOrdDict.lean, the two things the obligation C15_translated trusts."""
+    import subprocess
+    sites = tr["sites"]
+    quick = run.tier == "quick"
+    r = random.Random(run.seed * 9176 + 1515)
+    seqs: list = []
+    paths3 = short_paths(3)
+    for cap in (-1, 0, 1, 2, 3):
+        # depth 3 exhaustively for the capacities at which three calls can fill the dict and overflow it; a seeded third elsewhere
+        chosen = paths3 if cap in (1, 2) or not quick else r.sample(paths3, len(paths3) // 3)
+        seqs.extend((cap, explicit_ops(p)) for p in chosen)
+    seqs.extend(gen_sequence(r, False) for _ in range((400 if quick else 4000) * run.boost))
+    seqs.extend(gen_sequence(r, True) for _ in range((4 if quick else 30) * run.boost))
+    seqs.extend(gen_prefix_sequence(r) for _ in range((12 if quick else 80) * run.boost))
+    lines, wants, odd = [], [], []
+    for maxsize, ops in seqs:
+        calls, want, o = drive_real(maxsize, ops, sites)
+        odd.extend(o)
+        lines.append(json.dumps({"maxsize": maxsize, "state": [], "calls": calls}))
+        wants.append(want)
+    p = subprocess.run(["lake", "env", "lean", "--run", "Rbacx/Run/SrcEvalCache.lean"], cwd=lib.LEAN, input="\n".join(lines) + "\n",
+                       capture_output=True, text=True, timeout=900)
+    outs = [ln for ln in p.stdout.split("\n") if ln]
+    if p.returncode != 0 or len(outs) != len(lines):
+        return False, "SrcEvalCache: " + (p.stderr or p.stdout)[-800:]
+    bad = n_calls = 0
+    for (maxsize, ops), want, ln in zip(seqs, wants, outs):
+        got = json.loads(ln)
+        steps = got.get("steps")
+        first = None
+        if steps is None or len(steps) != len(want):
+            first = 0
+        for i, (w, st) in enumerate(zip(want, steps or [])):
+            n_calls += 1
+            run.count("translated-cache")
+            g = [[st["out"][0], proto.dec(st["out"][1]) if st["out"][0] == "ret" else st["out"][1]],
+                 [[k, [proto.dec(x) for x in vs]] for k, vs in st["state"]]]
+            kind = ops[i][0] + (":" + ("KeyError" if w[0][0] == "raised" else "hit" if ops[i][0] == "get" and w[0][1] is not None else "-"))
+            run.count(f"translated-cache: {kind}")
+            if len(w[1]) > 128:
+                run.count("translated-cache: dict>128")
+            if ops[i][0] == "set" and prefix is not None and any(e[1][-1] is not None and e[1][-1] <= ops[i][5] for e in w[1][prefix:]):
+                run.count("translated-cache: a reached deadline beyond the purge prefix survives the set")
+            if g != w and first is None:
+                first = i
+        if first is not None:
+            bad += 1
+            if bad == 1:
+                run.disagreements.append({"part": "translated source vs python", "maxsize": maxsize, "calls": ops[:first + 1],
+                                          "impl": {"python": want[first]}, "model": (steps or [got])[first] if (steps or [got])[first:] else got,
+                                          "what": "the translated cache methods (Generated.Src.cache_*) and the real DefaultInMemoryCache "
+                                                  f"differ at call #{first} of this sequence (result / key order / entries)"})
+    run.evaluations += n_calls
+    if odd:
+        run.disagreements.append({"part": "translated source vs python", "what": "clock readings do not fit the call sites: " + odd[0],
+                                  "count": len(odd)})
+        return False, odd[0]
+    return bad == 0, (f"{bad} of {len(seqs)} call sequences differ" if bad else f"agree on {n_calls} calls in {len(seqs)} sequences")
+
+
 # ----------------------------------------------------------------------------- verdict
 
 
@@ -874,13 +1070,19 @@ def check(run: lib.Run, audit: dict) -> int:
                 "2–6 keys and of length 300 over 140–260 keys with capacities 129–300 (dict > 128 entries: purge prefix). concurrent: "
                 "2–8 threads × 150/400 calls on an instrumented cache, replayed sequentially in lock order; tiny histories (2–4 threads) "
                 "checked against every order respecting real time. non-trivial = tree node whose last call is a get hit or a set that "
-                "evicts/purges; random sequence with both a hit and an eviction/expiry; concurrent history in which threads actually overlapped")
+                "evicts/purges; random sequence with both a hit and an eviction/expiry; concurrent history in which threads actually overlapped. "
+                "translated source vs the real cache: every call sequence of length 3 over the full alphabet (capacities 1, 2; a seeded third "
+                "of them for -1, 0, 3; thorough: all), seeded sequences of length ≤60 and 300, and dicts filled beyond the purge prefix "
+                "(131–200 entries with deadlines on both sides of entry 128), compared on result, key order and (value, deadline) of every "
+                "entry after every call")
     run.exhaustive = True
     run.assumptions = [
         "integer clock injected for time.monotonic (so now + float(ttl) is exact); ttl is None or an int; keys are str; values are ints",
         "clock readings are non-decreasing along every generated history (as time.monotonic guarantees); only c15_get_latest needs it",
         "cannot exhibit: that threading.RLock is a correct mutex and that `with` releases it (trusted; c15_atomic_ops assumes it)",
         "a call's accesses to _data are what the AST of cache.py shows (harness/extract.py); dynamic attribute tricks are out of scope",
+        "translated methods (C15_translated): keys are str, ttl is None or an int, clock readings are integers passed in call-site order; "
+        "for set the state is a dict (no key twice); Python's get result does not tell a stored None from a miss",
     ]
     if not audit["ok"]:
         raise lib.CheckError(f"Lean build/audit failed at {audit['stage']}: {audit.get('log') or audit.get('forbidden') or audit.get('bad_axioms')}")
@@ -889,6 +1091,23 @@ def check(run: lib.Run, audit: dict) -> int:
     locked, detail = lib.run_obligation("C15_locked")
     run.obligation("C15_locked", locked, "" if locked else detail)
     run.extra["purge_prefix_extracted"] = {"value": prefix, "note": facts["purge_prefix_note"]}
+    # the cache as it is written NOW, translated into state-passing Lean, is proved equal to the model's step (per-run obligation)
+    tr = audit["facts"].get("translated_cache")
+    untranslatable = not isinstance(tr, dict) or "extraction_failed" in tr
+    ok_tr, detail_tr = lib.run_obligation("C15_translated")
+    run.obligation("C15_translated: Generated.Src.cache_get / cache_set / cache_delete / cache_clear (the current source text of "
+                   "DefaultInMemoryCache, state-passing, clock readings as parameters in call-site order) = Rbacx.Cache.step on encoded "
+                   "states, for every capacity, dict, key, value, ttl (None or int) and clock readings", ok_tr,
+                   "discharged" if ok_tr else (str((tr or {}).get("extraction_failed")) if untranslatable else detail_tr))
+    if untranslatable:
+        ok_py, detail_py = True, "skipped: the cache methods are not in the translatable subset (see C15_translated)"
+    else:
+        ok_py, detail_py = translated_vs_python(run, tr, prefix)
+        run.extra["translated_cache_clock_sites"] = tr["sites"]
+    run.obligation("translated cache methods evaluate like the real DefaultInMemoryCache (translator + Model/PyOrdDict.lean vs CPython)",
+                   ok_py, detail_py)
+    tr_dis = [d for d in run.disagreements if d.get("part") == "translated source vs python"]
+    run.disagreements = [d for d in run.disagreements if d.get("part") != "translated source vs python"]   # below: model vs implementation
 
     run_corpus(run, prefix)
     run_trees(run, prefix)
@@ -896,10 +1115,10 @@ def check(run: lib.Run, audit: dict) -> int:
     run_concurrent(run, prefix)
 
     widened = False
-    if (run.disagreements or not locked or run.extra.get("unlocked_accesses")) and not run.spec_failures:
+    if (run.disagreements or not locked or not ok_tr or run.extra.get("unlocked_accesses")) and not run.spec_failures:
         # a proof obligation or the correspondence broke: widen the search for an input on which the property fails
         widened = True
-        if any("ops" in d for d in run.disagreements):
+        if any("ops" in d for d in run.disagreements) or not ok_tr:
             run_trees(run, prefix, wide=True)
             run_random(run, prefix, scale=5)
         run_concurrent(run, prefix, scale=4)
@@ -931,6 +1150,23 @@ def check(run: lib.Run, audit: dict) -> int:
                 [a for accs in facts["detail"].values() for a in accs if not a["under_lock"]],
             "accesses_outside_lock_observed": run.extra.get("unlocked_accesses", [])})
         violations.append((path, False))
+    elif not ok_tr:
+        path = run.write_replay("obligation", {
+            "what": "per-run obligation Rbacx/Run/C15_translated.lean no longer checks: the translated source of DefaultInMemoryCache's "
+                    "methods is not proved equal to the model's Rbacx.Cache.step, the function theorems Rbacx.C15.* are about; the "
+                    "widened search found no op sequence on which the implementation differs from the model or violates the "
+                    "observation spec",
+            "translation": (tr if untranslatable else {k: tr[k] for k in ("sites", "params", "purge_prefix", "entry_fields")}),
+            "lean": detail_tr[-1500:], "translated_vs_python": detail_py})
+        violations.append((path, False))
+    elif tr_dis or not ok_py:
+        first = tr_dis[0] if tr_dis else {"part": "translated source vs python", "what": detail_py}
+        path = run.write_replay("correspondence", {
+            "what": "translated source vs python: " + str(first.get("what")) + "; the obligation C15_translated rests on a translation "
+                    "that CPython contradicts (or that could not be evaluated)",
+            "first": first, "count": len(tr_dis)})
+        violations.append((path, False))
+    run.disagreements = run.disagreements + tr_dis
     return run.finish(audit, violations)
 
 
